@@ -575,6 +575,15 @@ def cli_witness(ctx, obligations_failed, tie_fail):
     streams.CLI.env = {"PSV_CLI": os.path.join(ctx.repo_build, "primesieve")}
     return streams.CLI.witness(ctx, obligations_failed, tie_fail)
 
+def c12_tie(ctx, tie_fail):
+    """sanitizer sweep: every stream runs the real code under ASan + UBSan + ENABLE_ASSERT; the quick tier leaves the two
+    slowest streams (count, cli - both run by C04/C09/C16 on every change anyway) to the thorough tier"""
+    fs = [("iter", iter_tie), ("iterc", streams.ITERC.tie), ("store", streams.STORE.tie), ("print", streams.PRINT.tie),
+          ("calc", streams.CALC.tie), ("wheel", streams.WHEEL.tie), ("cross", streams.CROSS.tie)]
+    if ctx.tier != "quick":
+        fs += [("count", count_tie), ("cli", cli_tie), ("segment", segment_tie), ("nth", streams.NTH.tie), ("multi", streams.MULTI.tie)]
+    return combine(*fs)(ctx, tie_fail)
+
 SAN_ASSUME = ["every correspondence stream of this framework runs on a build with -fsanitize=address,undefined "
               "-fno-sanitize-recover=all -DENABLE_ASSERT (bounds-checked Vector/Array): an abort is reported as a violation "
               "with the operation that triggers it"]
@@ -600,8 +609,7 @@ REGISTRY.update({
                   ("PsProps.C12", "Ps.Props.C12_decode_tables"), ("PsProps.C12", "Ps.Props.C12_constants"),
                   ("PsProps.C12", "Ps.Props.C12_signed"), ("PsProps.C12", "Ps.Props.C12_assert_ledger"),
                   ("PsProps.C12", "Ps.Props.C12_fill_source")],
-        tie=combine(("iter", iter_tie), ("iterc", streams.ITERC.tie), ("store", streams.STORE.tie), ("print", streams.PRINT.tie),
-                    ("count", count_tie), ("calc", streams.CALC.tie), ("cli", cli_tie)),
+        tie=c12_tie,
         witness=combine_witness(iter_witness, streams.ITERC.witness, streams.STORE.witness, count_witness, cli_witness),
         assumptions=ITER_ASSUME + SAN_ASSUME + [
             "the fill-loop model records only WHICH slots are written (indices), for arbitrary popcounts per 64-bit word; "
